@@ -109,6 +109,20 @@ def rule_final_block(ctx, cfg, r, r_full=None, r_one_final=None):
         rr = [x for x in ev.run(cf) if x.outcome[0] == "return"]
         if len(rr) == 1 and rr[0].ret and rr[0].ret[0] == "len":
             lenclosure = cid
+    def is_in_left(st):
+        """in_left = (length of the input slice, 0 without one) - src_pos (after the compress routine) — whether the Option is
+        unwrapped by map_or (kept as a call when its closure is unknown) or by the control flow the evaluator derives from it"""
+        if not (isinstance(st, tuple) and st and st[0] == "bin" and st[1] == "Sub" and paths.is_load_of(st[3], "src_pos", "ParamsOxide") and st[3][2] != 0):
+            return False
+        X = st[2]
+        if X[0] == "call" and X[1].endswith("map_or"):
+            cl = X[2][2]
+            return is_const(X[2][1]) and const_val(X[2][1]) == 0 and cl[0] == "closure" and cl[1] == lenclosure and \
+                paths.is_load_of(X[2][0], "in_buf", "CallbackOxide")
+        if X[0] == "len":
+            return paths.term_contains(X, lambda y: y[0] == "fld" and y[2] == "in_buf")
+        return is_const(X) and const_val(X) == 0
+
     def gate_facts(row):
         fl = vs(row, t["flush"])
         facts_ok = []
@@ -121,13 +135,8 @@ def rule_final_block(ctx, cfg, r, r_full=None, r_one_final=None):
         inl = False
         for a, s in row.atoms:
             for st in paths.subterms(a):
-                if st[0] == "bin" and st[1] == "Sub" and st[2][0] == "call" and st[2][1].endswith("map_or") and \
-                        paths.is_load_of(st[3], "src_pos", "ParamsOxide") and st[3][2] != 0:
-                    m = st[2]
-                    cl = m[2][2]
-                    if is_const(m[2][1]) and const_val(m[2][1]) == 0 and cl[0] == "closure" and cl[1] == lenclosure and \
-                            paths.is_load_of(m[2][0], "in_buf", "CallbackOxide") and vs(row, st).single() == 0:
-                        inl = True
+                if is_in_left(st) and vs(row, st).single() == 0:
+                    inl = True
         facts_ok.append(("in_left==0", inl))
         return facts_ok
     def legit_skip(row):
@@ -147,8 +156,7 @@ def rule_final_block(ctx, cfg, r, r_full=None, r_one_final=None):
                 return "output pending"
         for a, s in row.atoms:
             for st in paths.subterms(a):
-                if st and st[0] == "bin" and st[1] == "Sub" and st[2][0] == "call" and st[2][1].endswith("map_or") and \
-                        paths.is_load_of(st[3], "src_pos", "ParamsOxide") and not vs(row, st).contains(0):
+                if st and is_in_left(st) and not vs(row, st).contains(0):
                     return "input left"
         return None
     n_fb = 0
@@ -284,6 +292,23 @@ def rule_done_origin(ctx, cfg, r):
             r.fail(fob.name, "status", "unexpected status %s" % tstr(ops[0]))
 
 
+def _unlin(lf):
+    """linear form back to a term (for cast normalisation of region offsets / lengths)"""
+    cst, sym = lf
+    t = None
+    for k, co in sorted(sym.items(), key=lambda kv: repr(kv[0])):
+        for _ in range(abs(co)):
+            if t is None:
+                t = k if co > 0 else ("bin", "Sub", ("int", 0), k, "")
+            else:
+                t = ("bin", "Add" if co > 0 else "Sub", t, k, "")
+    if t is None:
+        return ("int", cst)
+    if cst:
+        t = ("bin", "Add", t, ("int", cst), "")
+    return t
+
+
 def rule_flush_output_conservation(ctx, cfg, r):
     """R02.7 (flush_output_buffer half): one and the same n is copied, added to out_buf_ofs / flush_ofs, removed from
     flush_remaining; the copy reads local_buf[flush_ofs .. flush_ofs+n] into out_buf[out_buf_ofs .. out_buf_ofs+n]."""
@@ -308,28 +333,31 @@ def rule_flush_output_conservation(ctx, cfg, r):
                 r.ok(fob.name, "nobuf-row", None)
             continue
         seen += 1
+
+        def N(t):
+            # compare quantities, not the widths of the temporaries that carry them
+            return normcasts(c, row, t)
+        ofs0n, fo0n, rem0n = N(ofs0), N(fo0), N(rem0)
         v = so[-1][2]
-        parts = sum_parts(v)
-        n = [x for x in parts if x != ofs0]
+        vn = N(v)
+        parts = sum_parts(vn)
+        n = [x for x in parts if x != ofs0n]
         if len(parts) != 2 or len(n) != 1:
             r.fail(fob.name, "out_buf_ofs", "out_buf_ofs is not advanced by a single amount: %s" % tstr(v))
             continue
         n = n[0]
-        # n = min(len(out_buf) - out_buf_ofs, flush_remaining as usize)
+        # n = min(len(out_buf) - out_buf_ofs, flush_remaining)
         okn = n[0] == "pure" and n[1] == "min" and len(n[2]) == 2
         if okn:
             a, b = n[2]
             def is_space(x):
-                return x[0] == "bin" and x[1] == "Sub" and x[2][0] == "len" and x[3] == ofs0
-            def is_rem(x):
-                return x == rem0 or (x[0] == "cast" and x[1] == rem0)
-            okn = (is_space(a) and is_rem(b)) or (is_space(b) and is_rem(a))
+                return x[0] == "bin" and x[1] == "Sub" and x[2][0] == "len" and x[3] == ofs0n
+            okn = (is_space(a) and b == rem0n) or (is_space(b) and a == rem0n)
         sfo = store_to_field(row, "flush_ofs", "ParamsOxide")
         srem = store_to_field(row, "flush_remaining", "ParamsOxide")
-        def narrow(x):
-            return x[1] if x[0] == "cast" else x
-        okf = sfo and sfo[-1][2][0] == "bin" and sfo[-1][2][1] == "Add" and sfo[-1][2][2] == fo0 and narrow(sfo[-1][2][3]) == n
-        okr = srem and srem[-1][2][0] == "bin" and srem[-1][2][1] == "Sub" and srem[-1][2][2] == rem0 and narrow(srem[-1][2][3]) == n
+        okf = bool(sfo) and sorted(map(repr, sum_parts(N(sfo[-1][2])))) == sorted(map(repr, [fo0n, n]))
+        sr = N(srem[-1][2]) if srem else None
+        okr = bool(srem) and sr[0] == "bin" and sr[1] == "Sub" and sr[2] == rem0n and sr[3] == n
         ops = tuple_ops(row.ret)
         okret = ops and ops[2] == v and paths.is_load_of(ops[1], "src_pos", "ParamsOxide")
         # the copy, when n != 0
@@ -338,14 +366,16 @@ def rule_flush_output_conservation(ctx, cfg, r):
         if vs(row, n).contains(0) is False or cp:
             okc = False
             if len(cp) == 1:
-                dst, src = cp[0][2]
-                def rng(x, lo, hi_base):
-                    return paths.term_contains(x, lambda y: y[0] == "agg" and y[1].endswith("ops::range::Range") and
-                                               narrow(y[4][0]) == lo and sorted(map(repr, [narrow(z) for z in sum_parts(y[4][1])])) ==
-                                               sorted(map(repr, [lo, n])))
-                okc = rng(dst, ofs0, None) and rng(src, fo0, None) and \
-                    paths.term_contains(src, lambda y: y[0] == "fld" and y[2] == "b" and y[3].endswith("LocalBuf")) and \
-                    paths.term_contains(dst, lambda y: y[0] == "fld" and y[2] == "out_buf")
+                import slices
+                dst, src = slices.region(cp[0][2][0], store=row.store), slices.region(cp[0][2][1], store=row.store)
+
+                def same(lf, t):
+                    return lf == slices.lin(t)
+                okc = dst is not None and src is not None and \
+                    slices.lin(N(_unlin(dst.off))) == slices.lin(ofs0n) and slices.lin(N(_unlin(src.off))) == slices.lin(fo0n) and \
+                    slices.lin(N(_unlin(dst.length))) == slices.lin(n) and slices.lin(N(_unlin(src.length))) == slices.lin(n) and \
+                    paths.term_contains(src.root, lambda y: y[0] == "fld" and y[2] == "b" and y[3].endswith("LocalBuf")) and \
+                    paths.term_contains(dst.root, lambda y: y[0] == "fld" and y[2] == "out_buf")
         if okn and okf and okr and okret and okc:
             r.ok(fob.name, "conservation", "n=min(len-ofs, flush_remaining): copied, +=out_buf_ofs, +=flush_ofs, -=flush_remaining")
         else:
